@@ -16,6 +16,19 @@ CHECKS = {
    ref='6/C12'),
 }
 
+CHECKS.update({
+ 'C14': dict(level='other', engine='S-euf + S-ring + native replay',
+   technique='symbolic execution of rustc MIR with uninterpreted stage functions (EUF) + ring-domain analysis of add_assign with symbolic curve coefficient, decided by z3; counterexamples replayed natively',
+   text='The blanket MapToCurve impl is executed from MIR with sswu/iso/clear_h/add as uninterpreted functions over curve-tagged points; z3 shows the result term is the RFC composition (modulo the isogeny homomorphism law) and that every add_assign call site is valid on the curve its operands live on, by analysing the real add_assign MIR with a symbolic coefficient a (the equal-operands branch is the tangent law only for a=0). Special pairs (u,u), (u,-u), (0,0), random are replayed natively in dev and release against map(u0)+map(u1).',
+   note='Stages themselves are C15/C16/C17; add on E is C01. Found a genuine defect (map2_to_curve(u,u)), repaired by a fix: commit; see known_findings.json.',
+   ref='6/C14, 7'),
+ 'C17': dict(level='other', engine='S-exp',
+   technique='symbolic execution of rustc MIR in the exponent domain (abelian-group abstraction) with a symbolic integer exponent; linear integer identities decided by z3',
+   text='chain_z, chain_h2_eff and ClearH for G1/G2 are executed from MIR on a point with symbolic exponent e; z3 shows the result is h_eff*e for independent literals of h_eff (G1: 0xd201000000010001, G2: the 636-bit RFC constant = 3(x^2-1)h2), hence additive and O -> O, for every point of the full curve group.',
+   note='Assumes curve operations form an abelian group (C01); that [h_eff] lands in the order-r subgroup is group-structure theory (RFC 9380 8.8), trusted.',
+   ref='6/C17'),
+})
+
 NOT_APPLICABLE = {
  'C03': 'bilinearity/non-degeneracy is a theorem about Miller functions of degree ~2^63 in the inputs; no bounded SMT/SAT query expresses it and the pairing code cannot be re-instantiated over a toy curve (DESIGN 6/C03)',
  'C20': 'quantifies over thread schedules; Kani/CBMC do not model std::thread and the mechanism is a fact about declarations, not a solver query (DESIGN 6/C20)',
@@ -48,7 +61,7 @@ def main():
             'guard': 'cargo feature `verif`',
             'enable': '--features verif (used by the Kani harness crate and the native replay binary; the MIR engine needs no hooks)',
             'baseline_off_cmd': 'cd /repo && (cargo nextest run --workspace --no-fail-fast --offline || cargo test --workspace --no-fail-fast --offline)',
-            'source_commits': [],
+            'source_commits': ['3959cfb'],
             'add_only': True,
         },
         'engines': [
